@@ -320,20 +320,18 @@ package rules
 // ---------------------------------------------------------------------------------------------
 // Chunk headers (C14): the running array size grows by the BYTE count of the chunk (elements
 // times element width, bit arrays rounded up), and that sum is what is compared with the limit.
-// Ending a zero-length chunk runs the rule machinery (it may end the array and reject for other
-// reasons); it is assumed not to touch the byte counters.
-//@ func (*Context).EndChunkAnyType
+// Ending a zero-length chunk runs the rule machinery (tryEndArray may end the array and reject for
+// other reasons); tryEndArray is assumed not to touch the byte counters.
+//@ func (*Context).tryEndArray
 //@   trusted
 //@   modifies obj(_this), memall(contextStackEntry), memall(byte), maps, alloc
 //@   ensures _this.arrayTotalByteCount == old(_this.arrayTotalByteCount) && _this.arrayMaxByteCount == old(_this.arrayMaxByteCount)
 //@   may_panic
-//@ func (*Context).EndChunkString
-//@   trusted
+//@ func (*Context).EndChunkAnyType
 //@   modifies obj(_this), memall(contextStackEntry), memall(byte), maps, alloc
 //@   ensures _this.arrayTotalByteCount == old(_this.arrayTotalByteCount) && _this.arrayMaxByteCount == old(_this.arrayMaxByteCount)
 //@   may_panic
 //@ func (*Context).EndChunkStringBuilder
-//@   trusted
 //@   modifies obj(_this), memall(contextStackEntry), memall(byte), maps, alloc
 //@   ensures _this.arrayTotalByteCount == old(_this.arrayTotalByteCount) && _this.arrayMaxByteCount == old(_this.arrayMaxByteCount)
 //@   may_panic
@@ -351,3 +349,82 @@ package rules
 //@   use CHUNKLIMIT(elemCount)
 //@ func (*Context).BeginChunkStringBuilder
 //@   use CHUNKLIMIT(elemCount)
+
+// ---------------------------------------------------------------------------------------------
+// Streaming UTF-8 (C11). The context keeps at most three pending bytes: the beginning of a
+// character whose remaining bytes have not arrived yet. StreamStringData partitions
+// (pending bytes ++ data) into  first ++ next ++ pending'  without losing, adding or reordering a
+// byte: first is the completed pending character (or empty), next is a sub-slice of data, pending'
+// is an incomplete character start again (or empty). Hence what the validator is shown, summed
+// over any split of a string into data events, is the string itself, cut only at character starts.
+//@ spec RemOK(c *Context) bool = len(c.utf8RemainderBuffer) <= 4 && cap(c.utf8RemainderBuffer) == 4 && c.utf8RemainderBuffer.off == 0 && c.utf8RemainderBuffer.arr == uint64(c.utf8RemainderBacking) && (len(c.utf8RemainderBuffer) > 0 ==> chars.RuneLen(c.utf8RemainderBuffer[0]) > 0)
+
+// (Run-time panics are rejections here, like every other rejection of the validator: data in which
+// stray continuation bytes follow the last character start can overflow the four pending bytes.)
+//@ func (*Context).StreamStringData
+//@   requires RemOK(_this) && data.arr != uint64(_this.utf8RemainderBacking) && data.arr != uint64(_this.utf8FirstRuneBacking)
+//@   modifies _this.utf8RemainderBuffer, memall(uint8)
+//@   runtime_panics
+//@   xensures true
+//@   let R = len(_this.utf8RemainderBuffer)
+//@   let D = len(data)
+//@   ensures RemOK(_this)
+//@   ensures forall i int :: 0 <= i && i < D ==> data[i] == old(data[i])
+//@   ensures len(firstRuneBytes) + len(nextRunesBytes) + len(_this.utf8RemainderBuffer) == R + D
+//@   ensures nextRunesBytes.arr == data.arr && nextRunesBytes.off >= data.off && nextRunesBytes.off + len(nextRunesBytes) <= data.off + D
+//@   ensures R == 0 ==> len(firstRuneBytes) == 0 && nextRunesBytes.off == data.off
+//@   ensures R > 0 && len(firstRuneBytes) == 0 ==> len(nextRunesBytes) == 0 && len(_this.utf8RemainderBuffer) == R + D && (forall i int :: 0 <= i && i < R ==> _this.utf8RemainderBuffer[i] == old(_this.utf8RemainderBuffer[i])) && (forall i int :: 0 <= i && i < D ==> _this.utf8RemainderBuffer[R + i] == data[i])
+//@   ensures len(firstRuneBytes) > 0 ==> R > 0 && len(firstRuneBytes) == chars.RuneLen(old(_this.utf8RemainderBuffer[0])) && nextRunesBytes.off == data.off + len(firstRuneBytes) - R && (forall i int :: 0 <= i && i < R ==> firstRuneBytes[i] == old(_this.utf8RemainderBuffer[i])) && (forall i int :: R <= i && i < len(firstRuneBytes) ==> firstRuneBytes[i] == data[i - R])
+//@   ensures (R == 0 || len(firstRuneBytes) > 0) ==> forall i int :: 0 <= i && i < len(_this.utf8RemainderBuffer) ==> _this.utf8RemainderBuffer[i] == data[nextRunesBytes.off - data.off + len(nextRunesBytes) + i]
+
+// The content validator installed by the array-begin functions: one of ValidateContentsString/RID/
+// CustomText/Comment/ValidateNothing. Assumed: it only inspects the bytes it is given and rejects by
+// panicking.
+//@ iface rules.Context.ValidateArrayDataFunc
+//@   may_panic
+
+//@ func (*Context).AddBuiltArrayBytes
+//@   requires len(_this.builtArrayBuffer) + len(bytes) <= 0x10000000000
+//@   modifies _this.builtArrayBuffer, mem(_this.builtArrayBuffer), alloc
+//@   ensures len(_this.builtArrayBuffer) == old(len(_this.builtArrayBuffer)) + len(bytes)
+//@   ensures _this.builtArrayBuffer.arr == old(_this.builtArrayBuffer.arr) || fresh(_this.builtArrayBuffer)
+//@   ensures forall i int :: 0 <= i && i < old(len(_this.builtArrayBuffer)) ==> _this.builtArrayBuffer[i] == old(_this.builtArrayBuffer[i])
+//@   ensures forall i int :: 0 <= i && i < len(bytes) ==> _this.builtArrayBuffer[old(len(_this.builtArrayBuffer)) + i] == old(bytes[i])
+
+// A string chunk may end only on a character boundary: pending bytes reject the chunk.
+//@ func (*Context).EndChunkString
+//@   modifies obj(_this), memall(contextStackEntry), memall(byte), maps, alloc
+//@   ensures old(len(_this.utf8RemainderBuffer)) == 0
+//@   ensures _this.arrayTotalByteCount == old(_this.arrayTotalByteCount) && _this.arrayMaxByteCount == old(_this.arrayMaxByteCount)
+//@   may_panic
+//@ func (*Context).BeginArrayMediaData
+//@   trusted
+//@   modifies obj(_this), memall(contextStackEntry), memall(byte), maps, alloc
+//@   may_panic
+//@ func (*Context).EndChunkMediaType
+//@   modifies obj(_this), memall(contextStackEntry), memall(byte), maps, alloc
+//@   ensures old(len(_this.utf8RemainderBuffer)) == 0
+//@   may_panic
+
+// One data event of a string chunk: the bytes are counted against the chunk, split at character
+// starts, shown to the content validator, and appended to the built string; nothing is lost:
+// built ++ pending grows by exactly the data. When the chunk is complete it must end on a
+// character boundary.
+//@ func (*StringChunkRule).OnArrayData
+//@   requires ctx != nil && RemOK(ctx) && data.arr != uint64(ctx.utf8RemainderBacking) && data.arr != uint64(ctx.utf8FirstRuneBacking) && len(ctx.builtArrayBuffer) + len(data) <= 0x1000000000
+//@   requires ctx.builtArrayBuffer.arr != uint64(ctx.utf8RemainderBacking) && ctx.builtArrayBuffer.arr != uint64(ctx.utf8FirstRuneBacking) && ctx.builtArrayBuffer.arr != data.arr && allocated(ctx.builtArrayBuffer) && allocated(ctx.utf8RemainderBacking) && allocated(ctx.utf8FirstRuneBacking)
+//@   modifies obj(ctx), memall(contextStackEntry), memall(byte), maps, alloc
+//@   runtime_panics
+//@   xensures true
+//@   ensures old(ctx.chunkActualByteCount) + uint64(len(data)) <= old(ctx.chunkExpectedByteCount)
+//@   ensures old(ctx.chunkActualByteCount) + uint64(len(data)) < old(ctx.chunkExpectedByteCount) ==> ctx.chunkActualByteCount == old(ctx.chunkActualByteCount) + uint64(len(data))
+//@   ensures old(ctx.chunkActualByteCount) + uint64(len(data)) < old(ctx.chunkExpectedByteCount) ==> RemOK(ctx)
+//@   ensures old(ctx.chunkActualByteCount) + uint64(len(data)) < old(ctx.chunkExpectedByteCount) ==> len(ctx.builtArrayBuffer) + len(ctx.utf8RemainderBuffer) == old(len(ctx.builtArrayBuffer)) + old(len(ctx.utf8RemainderBuffer)) + len(data)
+
+// One data event of a chunk of a non-string array: only counted against the chunk.
+//@ func (*ArrayChunkRule).OnArrayData
+//@   requires ctx != nil
+//@   modifies obj(ctx), memall(contextStackEntry), memall(byte), maps, alloc
+//@   xensures true
+//@   ensures old(ctx.chunkActualByteCount) + uint64(len(data)) <= old(ctx.chunkExpectedByteCount)
+//@   ensures old(ctx.chunkActualByteCount) + uint64(len(data)) < old(ctx.chunkExpectedByteCount) ==> ctx.chunkActualByteCount == old(ctx.chunkActualByteCount) + uint64(len(data))
